@@ -70,7 +70,39 @@ static long scalar_operand(const vj::value& c, size_t j) { if (c.has("data")) re
 #define UN(name) if (op == #name) return projt(view::name(operand(c, 0)));
 #define OUT(name) if (op == "outer_" #name) return projt(view::outer_##name(operand(c, 0), operand(c, 1)));
 
+// element types: operands of the listed types (args.etypes) with the given integer data; the result is projected as it comes
+template <class F> static vj::value with_type(const std::string& t, F&& f) {
+    if (t == "i8") return f((int8_t)0); if (t == "u8") return f((uint8_t)0); if (t == "i16") return f((int16_t)0); if (t == "u16") return f((uint16_t)0);
+    if (t == "i64") return f((long)0); if (t == "f32") return f((float)0); if (t == "f64") return f((double)0);
+    return crash_res("driver:unknown element type");
+}
+template <class T> static dyn_t<T> typed_operand(const vj::value& c, size_t j) {
+    auto k = c["data"][j].as_vec<long>(); std::vector<T> d; for (auto x : k) d.push_back((T)x);
+    return make_data<T>(c["shapes"][j].as_vec<long>(), d);
+}
+static vj::value typed(const vj::value& c) {
+    const std::string op = c["op"].as_str(); const auto& et = c["args"]["etypes"];
+    return with_type(et[0].as_str(), [&](auto ta) -> vj::value {
+        auto a = typed_operand<decltype(ta)>(c, 0);
+        if (c["shapes"].size() == 1) {
+            if (op == "negative") return projt(view::negative(a));
+            if (op == "square") return projt(view::square(a));
+            return crash_res("driver:unsupported typed unary op");
+        }
+        return with_type(et[1].as_str(), [&](auto tb) -> vj::value {
+            auto b = typed_operand<decltype(tb)>(c, 1);
+            if (op == "add") return projt(view::add(a, b));
+            if (op == "subtract") return projt(view::subtract(a, b));
+            if (op == "multiply") return projt(view::multiply(a, b));
+            if (op == "less") return projt(view::less(a, b));
+            if (op == "maximum") return projt(view::maximum(a, b));
+            return crash_res("driver:unsupported typed binary op");
+        });
+    });
+}
+
 static vj::value handle(const vj::value& c) {
+    if (c["args"].has("etypes")) return typed(c);
     const std::string op = c["op"].as_str();
     size_t nops = c["shapes"].size();
     bool sa = nops > 0 && c["shapes"][0].size() == 0, sb = nops > 1 && c["shapes"][1].size() == 0;
